@@ -125,6 +125,20 @@ def run(ctx):
         sam = [a for a in fx.find(domain="sync", target="resp") if a.v == f"slave.{ch}.resp"]
         ok = ok and len(sam) == 1 and B.entails(q.gformula(fx, sam[0], inline=False), B.from_expr(f"slave.{ch}.valid & ~(slave.{ch}.resp == RESP_OKAY)"))
         ctx.ob("B3", AL, cls, f"master.{ch}.resp = sticky error of the sub-transfers", ok, "" if ok else f"{[(a.v, a.gtext()) for a in fx.find(domain='sync', target='resp')]}")
+        # ... and no error is missed: in the state that looks at the sub-response, a first non-OKAY response is latched in every
+        # cycle in which it is presented (the last sub-read is deliberately not acknowledged there: a latch that waits for the
+        # handshake never sees it)
+        if len(sam) == 1 and sam[0].state is not None:
+            inl = q.Inliner(fx, sam[0])
+            G = inl.gformula(sam[0])
+            info = fx.fsms[sam[0].state[0]]
+            from ..rules_stream import state_atom_of
+            seen = B.And(state_atom_of(info, sam[0].state[1]), B.from_expr(f"slave.{ch}.valid & (resp == RESP_OKAY) & ~(slave.{ch}.resp == RESP_OKAY)"))
+            okc = B.entails(seen, G)
+            ctx.ob("B3", AL, cls, f"every presented error of a sub-transfer is latched ({sam[0].state[1]})", okc,
+                   "" if okc else f"`resp <= slave.{ch}.resp` takes effect only under {B.show(G)[:200]}: a non-OKAY sub-response presented in "
+                                  f"{sam[0].state[1]} can pass unlatched (e.g. {B.counterexample(seen, G)}) and the master is answered OKAY",
+                   sam[0].line)
     fx = fx_of(ctx, AFL, "AXILite2AXI")
     for t, v in (("axi_lite.b.resp", "axi.b.resp"), ("axi_lite.r.resp", "axi.r.resp")):
         d = fx.find(domain="comb", target=t)
